@@ -22,7 +22,7 @@ ASSUMPTIONS = ["a disconnect request is only issued while a connection is up or 
                "the first login (key upload + reconnect) happens before the judged history starts",
                "the real socket/asyncore dispatchers are exercised separately over loopback in the thorough tier"]
 REQUIRED = ["histories", "events", "checkpoints", "ev:connected", "ev:success", "ev:failure", "ev:stream-error", "ev:tick", "ev:pong",
-            "ev:socket-error", "ev:peer-close", "ev:disconnect-request", "auto_reconnects", "ping_timeouts", "pings_seen", "states_visited"]
+            "ev:connected-held", "ev:release-handshake", "ev:socket-error", "ev:peer-close", "ev:disconnect-request", "auto_reconnects", "ping_timeouts", "pings_seen", "states_visited"]
 TIMEOUT = {"quick": 600, "thorough": 7200}
 
 
@@ -77,7 +77,7 @@ def wait_ping_threads(clock, timeout=20.0):
         time.sleep(0.0003)
 
 
-EVENTS = ["connect-request", "connected", "socket-error", "peer-close", "disconnect-request", "success", "failure", "stream-error:conflict",
+EVENTS = ["connect-request", "connected", "connected-held", "release-handshake", "socket-error", "peer-close", "disconnect-request", "success", "failure", "stream-error:conflict",
           "stream-error:ack", "stream-error:xml-not-well-formed", "tick", "tick", "tick", "pong"]
 
 
@@ -114,8 +114,10 @@ class Ref(object):
     def enabled(self, ev):
         if ev == "connect-request":
             return self.conn == "down"
-        if ev == "connected":
+        if ev in ("connected", "connected-held"):
             return self.conn == "connecting"
+        if ev == "release-handshake":
+            return self.conn == "up" and not self.handshake
         if ev == "socket-error":
             return self.conn in ("connecting", "up")
         if ev in ("peer-close",):
@@ -123,9 +125,9 @@ class Ref(object):
         if ev == "disconnect-request":
             return self.conn in ("connecting", "up")
         if ev == "success":
-            return self.conn == "up" and not self.authed
+            return self.conn == "up" and self.handshake and not self.authed
         if ev == "failure" or ev.startswith("stream-error"):
-            return self.conn == "up"
+            return self.conn == "up" and self.handshake
         if ev == "tick":
             return True
         if ev == "pong":
@@ -138,10 +140,12 @@ class Ref(object):
         if ev == "connect-request":
             e["connect_calls"] += 1
             self.conn = "connecting"
-        elif ev == "connected":
+        elif ev in ("connected", "connected-held"):
             e["connected"] += 1
             e["logins"] += 1
             self.conn = "up"
+            self.handshake = (ev == "connected")
+        elif ev == "release-handshake":
             self.handshake = True
         elif ev == "socket-error":
             self.down(self.conn == "up", False)
@@ -267,6 +271,10 @@ def one_history(acc, seed, tag):
                 wgt = 1.0
                 if e_ == "connected" or e_ == "connect-request":
                     wgt = 4.0
+                elif e_ == "connected-held":
+                    wgt = 1.5
+                elif e_ == "release-handshake":
+                    wgt = 2.0
                 elif e_ == "success":
                     wgt = 5.0
                 elif e_ == "tick":
@@ -281,8 +289,8 @@ def one_history(acc, seed, tag):
             d = c.dispatcher
             if ev == "connect-request":
                 c.guarded(lambda: c.app.connect(), "connect")
-            elif ev == "connected":
-                pass        # the scheduler delivers the pending connected callback; the handshake follows
+            elif ev in ("connected", "connected-held", "release-handshake"):
+                pass        # the scheduler delivers the pending connected callback; the handshake follows (or is withheld)
             elif ev == "socket-error":
                 W.socket_error(A)
             elif ev == "peer-close":
@@ -304,9 +312,12 @@ def one_history(acc, seed, tag):
                 pend = W.server.held_pings.pop(0) if W.server.held_pings else None
                 if pend:
                     W.server.to_client(A, ("iq", {"id": pend, "type": "result", "from": "s.whatsapp.net"}, [], None))
-            W.hold_connects = (ev != "connected")     # a pending 'connected' callback is only delivered by that event
+            W.hold_connects = ev not in ("connected", "connected-held")     # a pending 'connected' callback is only delivered by those events
+            W.hold_raw = not ref.handshake and ev != "release-handshake" and (ev == "connected-held" or ref.conn == "up")
             good = settle()
             W.hold_connects = False
+            if ev in ("socket-error", "peer-close", "disconnect-request") or ref.conn != "up":
+                W.hold_raw = False
             if not good:
                 return
             note = ref.apply(ev)
@@ -355,7 +366,7 @@ def one_history(acc, seed, tag):
             if ok and (c.net.getStatus() is True) != (ref.conn == "up"):
                 ok = bad("status:%s" % ev.split(":")[0], "network layer reports connected=%s while the reference machine is %s" % (c.net.getStatus(), ref.conn))
             # the presented passive flag
-            if ok and ev == "connected":
+            if ok and ev in ("connected", "release-handshake"):
                 cp = c.dispatcher.srv.client_payload if getattr(c.dispatcher, "srv", None) is not None else None
                 if cp is None or bool(cp.passive) != bool(opts["passive"]):
                     ok = bad("passive-flag", "login presented passive=%s, configured %s" % (getattr(cp, "passive", None), opts["passive"]))
